@@ -32,6 +32,8 @@ a.useDbl n:# k:# d:(a.dbl n k) = a.UseDbl;
 a.mix {p:#} l:# x:p.13?int y:l.14?int = a.Mix p;
 a.useMix n:# d:(a.mix n) = a.UseMix;
 a.tm {m:#} n:# xs:(a.inner n) = a.Tm m;
+a.out {m:#} a:int i:%(a.Inner m) = a.Out m;
+a.useOut k:# o:(a.out k) = a.UseOut;
 a.useTm k:# t:(a.tm k) = a.UseTm;
 ---functions---
 @read a.get m:# k:m.15?int = a.Rec;
@@ -62,6 +64,9 @@ var verifSafeCases = []verifLintCase{
 	{name: "append-masked-field-second-of-two-template-masks", from: " y:q.12?int = a.Dbl p q;", to: " y:q.12?int z:q.20?int = a.Dbl p q;", accept: 2, usedBy: []int{12}},
 	{name: "append-masked-field-template-mask-beside-local-mask", from: " y:l.14?int = a.Mix p;", to: " y:l.14?int z:p.20?int = a.Mix p;", accept: 2, usedBy: []int{13}},
 	{name: "append-masked-field-local-mask-beside-template-mask", from: " y:l.14?int = a.Mix p;", to: " y:l.14?int z:l.20?int = a.Mix p;", accept: 2, usedBy: []int{14}},
+	// a # forwarded through two type levels: the bits used inside the innermost type count for the outer levels too
+	{name: "append-masked-field-on-mask-forwarded-to-nested-type", from: " i:%(a.Inner m) = a.Out m;", to: " i:%(a.Inner m) y:m.20?int = a.Out m;", accept: 2, usedBy: []int{11, 12}},
+	{name: "append-masked-field-on-mask-forwarded-through-two-levels", from: " o:(a.out k) = a.UseOut;", to: " o:(a.out k) y:k.20?int = a.UseOut;", accept: 2, usedBy: []int{11, 12}},
 	{name: "append-masked-function-argument-on-mask-passed-to-result", from: "@read a.getDbl f1:# f2:# = a.Dbl f1 f2;", to: "@read a.getDbl f1:# f2:# e:f1.20?int = a.Dbl f1 f2;", accept: 2, usedBy: []int{11}},
 }
 
